@@ -636,11 +636,28 @@ def cold_run(gi, plan, gran):
 _COLD = {}
 
 
+# A cold execution pays for everything the tree does on first use, under the tracer and in a fresh fork. On
+# the pinned tree the largest cold group has 3,618 plans. A tree that builds a table on first use has tens of
+# thousands of scheduling points per thread; its plan list is thinned (larger stride, stated in the evidence)
+# to at most this many plans per group and level, so that the check ends in minutes there too. No effect
+# on the pinned tree.
+COLD_CAP = {"quick": 5000, "thorough": 60000}
+_COLD_TIER = ["quick"]
+_COLD_STRIDE = {}
+
+
 def _cold_plans(gi, bound, gran, stride):
     key = (gi, bound, gran, stride)
     if key not in _COLD:
         npts = cold_points(gi, gran)
-        _COLD[key] = (list(sched.plans(npts, bound, stride)), npts, cold_alone(gi))
+        cap = COLD_CAP[_COLD_TIER[0]]
+        eff = stride
+        plans = list(sched.plans(npts, bound, eff))
+        while len(plans) > cap:
+            eff = eff * 2 if bound == 1 else eff + max(1, eff // 2)
+            plans = list(sched.plans(npts, bound, eff))
+        _COLD_STRIDE[key] = eff
+        _COLD[key] = (plans, npts, cold_alone(gi))
     return _COLD[key]
 
 
@@ -677,6 +694,7 @@ def _cold_task(t):
 
 def explore_cold_schedules(ctx, res):
     tasks, summary = [], {}
+    _COLD_TIER[0] = "thorough" if ctx.thorough else "quick"
     for gi, (name, kind, spec, levels) in enumerate(COLD_GROUPS):
         for bound, gran, stride in levels:
             if not ctx.thorough:
@@ -689,8 +707,11 @@ def explore_cold_schedules(ctx, res):
                 elif gran == "opcode":
                     stride *= 4
             plans, npts, alone = _cold_plans(gi, bound, gran, stride)
-            summary["%s | bound %d, %s%s" % (name, bound, gran, "/%d" % stride if stride > 1 else "")] = {
+            eff = _COLD_STRIDE.get((gi, bound, gran, stride), stride)
+            summary["%s | bound %d, %s%s" % (name, bound, gran, "/%d" % eff if eff > 1 else "")] = {
                 "schedules": len(plans), "points_per_thread": npts}
+            if eff != stride:
+                summary["%s | bound %d, %s%s" % (name, bound, gran, "/%d" % eff)]["thinned_from_stride"] = stride
             step = max(10, len(plans) // 48)
             for lo in range(0, len(plans), step):
                 tasks.append((gi, bound, gran, stride, lo, min(len(plans), lo + step)))
